@@ -1,5 +1,5 @@
 #!/bin/bash
-# usage: scripts/intake.sh <agent-worktree> <variant a|b> <name> [file-prefix, default SEED]
+# usage: [RACE=1] scripts/intake.sh <agent-worktree> <variant a|b> <name> [file-prefix, default SEED]   (RACE=1: run the demonstration under the race detector)
 # Independently confirms a seeded change delivered by a sub-agent and, if confirmed, stores it under /verif/seeded/<name>/.
 # Confirms: patch applies to /repo HEAD, builds, the existing suite passes with it, the demonstration fails with it and
 # passes without it. Everything runs in fresh scratch worktrees that are removed afterwards.
@@ -18,11 +18,11 @@ cleanup() { git -C /repo worktree remove --force "$wt" 2>/dev/null; rm -f "$TMPO
 trap cleanup EXIT
 # demo on the unchanged tree
 cp "$demo" "$wt/$pkg/zz_seed_demo_test.go"
-if ! (cd "$wt/$pkg" && go test -count=1 -run "^${tname}\$" . >"$TMPO" 2>&1); then echo "REJECT: demo fails on the unchanged tree"; tail -20 "$TMPO"; exit 1; fi
+if ! (cd "$wt/$pkg" && go test ${RACE:+-race} -count=1 -run "^${tname}\$" . >"$TMPO" 2>&1); then echo "REJECT: demo fails on the unchanged tree"; tail -20 "$TMPO"; exit 1; fi
 echo "demo passes on the unchanged tree"
 git -C "$wt" apply "$diff" || { echo "REJECT: patch does not apply"; exit 1; }
 (cd "$wt" && go build ./... ) || { echo "REJECT: does not build"; exit 1; }
-if (cd "$wt/$pkg" && go test -count=1 -run "^${tname}\$" . >"$TMPO" 2>&1); then echo "REJECT: demo passes with the change"; exit 1; fi
+if (cd "$wt/$pkg" && go test ${RACE:+-race} -count=1 -run "^${tname}\$" . >"$TMPO" 2>&1); then echo "REJECT: demo passes with the change"; exit 1; fi
 echo "demo fails with the change: $(grep -m1 -E '^\s+.*_test.go:[0-9]+:|panic:|FAIL' "$TMPO" | head -1 | cut -c1-200)"
 rm "$wt/$pkg/zz_seed_demo_test.go"
 # existing suite with the change
@@ -40,11 +40,11 @@ mkdir -p "$HERE/seeded/$NAME"
 cp "$diff" "$HERE/seeded/$NAME/patch.diff"
 cp "$demo" "$HERE/seeded/$NAME/demo_test.go.txt"
 python3 - "$meta" "$HERE/seeded/$NAME/meta.json" "$pkg" "$tname" <<'PY'
-import json,sys
+import json,sys,os
 m=json.load(open(sys.argv[1]))
 out={"property":m.get("property"),"summary":m.get("summary"),"breaks":m.get("breaks"),"needs":m.get("needs"),
  "demo_pkg_dir":sys.argv[3],"demo_test":sys.argv[4],
- "how_to_run_demo":f"copy demo_test.go.txt to <worktree>/{sys.argv[3]}/zz_seed_demo_test.go and run: go test -run '^{sys.argv[4]}$' ./{sys.argv[3]}",
+ "how_to_run_demo":f"copy demo_test.go.txt to <worktree>/{sys.argv[3]}/zz_seed_demo_test.go and run: go test {'-race ' if os.environ.get('RACE') else ''}-run '^{sys.argv[4]}$' ./{sys.argv[3]}",
  "confirmed":"scripts/intake.sh: patch applies to /repo HEAD and builds; demonstration passes without and fails with the change; the whole existing suite (go test ./...) passes with the change",
  "agent_commands_run":m.get("commands_run")}
 json.dump(out,open(sys.argv[2],"w"),indent=1)
